@@ -90,6 +90,10 @@ def check_list(ctx, phr, placements, nt=NT, base=0):
             ctx.hist["in_phrase" if idx is not None else "outside"] += 1
 
 
+# tempo / resolution environments: membership depends on ticks only
+ENVS = (dict(), dict(res=960, sync=["0 = TS 4", "0 = B 10000000000"]), dict(res=1, sync=["0 = TS 4", "0 = B 1000"] + ["%d = B %d" % (3 * i, 1000 + i) for i in range(1, 30)]))
+
+
 def long_lists(n):
     yield "adjacent", [(3 * i, 3) for i in range(n)]
     yield "adjacent+zero", [(3 * (i // 2), 0 if i % 2 == 0 else 3) for i in range(n)]
@@ -108,12 +112,13 @@ def run_shard(shard, ctx):
             for notes in (list(range(last + 1)), list(range(0, last + 1, 2)), list(range(1, last + 1, 3)), [last - 1], [phr[-1][0]]):
                 expected = [[n, next((i for i, (t, ln) in enumerate(phr) if t <= n < t + ln), None)] for n in notes]
                 body = body_for(phr, notes, "before")
-                text = mk(tracks={"ExpertSingle": body})
-                got = e1.run_probe(probe, text)
-                ctx.case(text, sample=lambda: dict(layout=name, phrases=len(phr), notes=len(notes)))
-                ctx.evaluations += len(notes)
-                if got != expected:
-                    e1.report(ctx, "membership", text, PROBE_SRC, [expected], got, "%d phrases (%s) %r, note ticks %r" % (len(phr), name, phr[:6], notes[:12]))
+                for env in ENVS:
+                    text = mk(tracks={"ExpertSingle": body}, **env)
+                    got = e1.run_probe(probe, text)
+                    ctx.case(text, sample=lambda: dict(layout=name, phrases=len(phr), notes=len(notes)))
+                    ctx.evaluations += len(notes)
+                    if got != expected:
+                        e1.report(ctx, "membership", text, PROBE_SRC, [expected], got, "%d phrases (%s) %r, note ticks %r" % (len(phr), name, phr[:6], notes[:12]))
         return
     if kind == "big":
         base = BASES[shard[1]]
